@@ -339,8 +339,11 @@ def main(argv: List[str]) -> int:
         # pre-import heavy things once in the parent; children are forked from here
         import crosshair.core_and_libs  # noqa
         import z3  # noqa
-        from symlib.prelude import silence_loggers
+        from symlib.prelude import silence_loggers, import_repo_networking
         silence_loggers()
+        # import the whole repository once in the parent (scratch cwd): importing skepticoin.blockstore creates
+        # ./chain.db, and 16 children doing that concurrently in one directory race on CREATE TABLE.
+        import_repo_networking()
         mod = importlib.import_module(modname)
         if a.replay:
             return _replay_file(mod, prop, a.replay)
